@@ -98,7 +98,7 @@ Pr(t) ==
     [] t.k = "Defer" -> <<"defer">> \o Pr(t.c[1])
     [] t.k = "Go" -> <<"go">> \o Pr(t.c[1])
     [] t.k = "Show" -> <<"show">> \o Commas(t.c[1].c, 1)
-Print(t) == Pr(t)
+PrintTree(t) == Pr(t)
 
 (* ------------------------------------------------------------------------------------------------
    (i) reference Parse: precedence climbing over a token sequence.  A result is [t, i]: tree and index
@@ -228,7 +228,7 @@ ParseStmt(s) ==
          ELSE Err
 IsStmt(t) == t.k \in StmtKinds
 Parse(mode, s) == IF mode = "stmt" THEN ParseStmt(s) ELSE ParseExpr(s)
-RoundTrips(t) == Parse(IF IsStmt(t) THEN "stmt" ELSE "expr", Print(t)) = t
+RoundTrips(t) == Parse(IF IsStmt(t) THEN "stmt" ELSE "expr", PrintTree(t)) = t
 
 (* ------------------------------------------------------------------------------------------------
    (ii) implementation-shaped: the String methods of ast/ast.go, token for token
